@@ -18,6 +18,7 @@
 #include <tbox/event/fd_event.h>
 #include <arpa/inet.h>
 #include <execinfo.h>
+#include <setjmp.h>
 #include <netinet/in.h>
 #include <netinet/tcp.h>
 #include <sys/epoll.h>
@@ -35,8 +36,10 @@ using namespace tbox; using namespace tbox::event; using namespace tbox::http; u
 extern "C" int epoll_wait(int epfd, struct epoll_event *ev, int maxev, int) { return (int)syscall(SYS_epoll_wait, epfd, ev, maxev, 0); }
 extern "C" int select(int nfds, fd_set *r, fd_set *w, fd_set *e, struct timeval *) { struct timeval z = {0, 0}; return (int)syscall(SYS_select, nfds, r, w, e, &z); }
 
-enum { REQ, PASS, RAW, RECONN };             // RAW: a malformed request (crash/hang freedom only; ends the judged part of that connection)
+enum { REQ, PASS, RAW, RECONN, HCL };             // RAW: a malformed request (crash/hang freedom only; ends the judged part of that connection)
                                              // RECONN: the client closes its side of the connection in slot c (whatever is outstanding) and opens a new one
+                                             // HCL: an otherwise valid request whose Content-Length value is hostile (negative, signed, huge, blank, ...): whatever the server makes of it
+                                             //      (reject, wait for a body, hand it to the handler), the loop pass must end and the handler must not see it twice; ends the judged part
 // request kinds = HTTP version x Connection header; `closing` is the reference model's reading of "asked for the connection to be closed"
 enum { KEEP, CLOSE, HTTP10, KEEP11H, KEEP10H, KEEP10TE, CLOSE11TE, NKIND };
 struct KindDef { const char *name, *ver, *conn; bool closing; };
@@ -51,6 +54,7 @@ static Op mkreq(int kind, int d, int seg, int conn = 0, int nd = 0, int big = 0)
 static const char *kSeg[] = {"alone", "glued", "cut", "cutm"}, *kRaw[] = {"bad-content-length", "bad-method"};
 static const char *kRawText[] = {"POST /x HTTP/1.1\r\nContent-Length: abc\r\n\r\n", "BREW /x HTTP/1.1\r\nContent-Length: 0\r\n\r\n"};
 
+static jmp_buf g_bail;                    // the watchdog leaves a loop pass that never ends (forked child / replay process: nothing is cleaned up afterwards)
 static std::string g_transport = "unix", g_engine = "epoll", g_lane = "";
 // configuration of the closed system, chosen by the lane
 static int g_nclients = 1;              // connections open from the start (lane multi: 2)
@@ -89,6 +93,21 @@ template <class T> static std::string raw_scalars(T *obj) {     // small integer
   return s;
 }
 
+// hostile Content-Length values; @H = the size of the request's own head (so that a wrapped "position + length" lands exactly on the start of the request)
+static const char *kHcl[] = {"-@H", "-@H-1", "-@H+1", "-@H+5", "-2", "-5", "-0", "+5", "05", "  5", "5 ", "", "-", "2147483647", "2147483648", "-2147483648", "-2147483649", "4294967295", "4294967296", "4294967301",
+                             "-4294967291", "9223372036854775807", "9223372036854775808", "-9223372036854775808", "18446744073709551615", "18446744073709551616", "18446744073709551621", "-18446744073709551611", "99999999999999999999999999"};
+static const int kNHcl = sizeof kHcl / sizeof *kHcl;
+static std::string req_body(int i);
+static std::string hcl_text(int i, int v) {
+  std::string pre = "POST /r" + std::to_string(i) + " HTTP/1.1\r\nContent-Length: ", val = kHcl[v];
+  size_t at = val.find("@H");
+  if (at != std::string::npos) {
+    long delta = val.size() > at + 2 ? atol(val.c_str() + at + 2) : 0;
+    for (long n = 1; n < 400; n++) { std::string cand = "-" + std::to_string(n + delta); if ((long)(pre.size() + cand.size() + 4) == n) { val = cand; break; } }
+  }
+  return pre + val + "\r\n\r\n" + req_body(i);
+}
+
 static std::string req_body(int i) { return "b" + std::to_string(i) + "xyz"; }
 static std::string req_text(int i, int kind) {
   std::string body = req_body(i); const KindDef &kd = kKindDef[kind];
@@ -113,6 +132,8 @@ struct World {
   Loop *loop = nullptr; Server *srv = nullptr; std::string sock_path; struct sockaddr_in tcp_sa; socklen_t tcp_sl = 0;
   int pass_no = 0;
   std::vector<Client> cl; int cur[2] = {-1, -1}; int reconns = 0;      // every connection ever opened; the live one per client slot
+  std::vector<int> hcl;                       // per request: index of its hostile Content-Length value, -1 = a valid request
+  int handler_calls_in_pass = 0;              // watchdog: a pass in which the handler is entered again and again never ends
   std::vector<int> segs, kinds, delays, nds, bigs, owner;             // per request issued by a client (index = request number); owner = index into cl
   std::vector<bool> sent;                     // the client has issued write() for all of its bytes (a refused write is the server's doing)
   std::vector<int> delivered;                 // request numbers in the order the (first) handler saw them
@@ -182,7 +203,12 @@ struct World {
     int i = -1; if (q.url.path.size() >= 3 && q.url.path.compare(0, 2, "/r") == 0) i = atoi(q.url.path.c_str() + 2);
     if (i < 0 || i >= (int)kinds.size()) { viol = "handler-got-a-request-the-client-never-sent path=" + q.url.path; return -1; }
     const KindDef &kd = kKindDef[kinds[i]]; auto hc = q.headers.find("Connection");
-    if (q.method != Method::kPost || q.body != req_body(i) || q.http_ver != (!strcmp(kd.ver, "HTTP/1.0") ? HttpVer::k1_0 : HttpVer::k1_1)
+    if (++handler_calls_in_pass > 40) {      // the loop is going round inside one pass (same bytes parsed again and again): report now, with the history, instead of running into a timeout
+      if (viol.empty()) viol = "server-loop-pass-never-ends-handler-invoked-again-and-again " + rn(i);
+      else viol += " (and the loop pass never ends: handler entered >40 times in one pass)";
+      longjmp(g_bail, 1); }
+    if (hcl[i] >= 0) ;                        // hostile length: which bytes end up as the body is the parser's business
+    else if (q.method != Method::kPost || q.body != req_body(i) || q.http_ver != (!strcmp(kd.ver, "HTTP/1.0") ? HttpVer::k1_0 : HttpVer::k1_1)
         || (kd.conn ? (hc == q.headers.end() || hc->second != kd.conn) : hc != q.headers.end())) { viol = "request-handed-to-handler-differs-from-request-sent r" + std::to_string(i); return -1; }
     for (int d : delivered) if (d == i) { viol = "request-handed-to-handler-twice r" + std::to_string(i); return -1; }
     for (int d : delivered) if (owner[d] == owner[i] && d > i) { viol = "requests-handed-to-handler-out-of-order r" + std::to_string(i); return -1; }
@@ -204,7 +230,7 @@ struct World {
     else completed++;                                                                  // completes inside the request callback
   }
 
-  void raw_pass() { loop->runNext([] {}); loop->runLoop(Loop::Mode::kOnce); }
+  void raw_pass() { handler_calls_in_pass = 0; loop->runNext([] {}); loop->runLoop(Loop::Mode::kOnce); }
   void pass() {
     pass_no++;
     // deferred next() calls and handlers due in this pass run from a loop callback (after the pass' fd events), in request order
@@ -280,9 +306,12 @@ struct World {
       pass(); return; }
     int ci = cur[o.conn];
     if (o.k == RAW) { cl[ci].out += kRawText[o.kind]; flush_out(ci); cl[ci].malformed_sent = true; pass(); return; }
-    int i = (int)kinds.size(); kinds.push_back(o.kind); delays.push_back(o.delay); sent.push_back(false); segs.push_back(o.seg); nds.push_back(o.nd); bigs.push_back(o.big); owner.push_back(ci);
+    int i = (int)kinds.size(); bool hostile = o.k == HCL; hcl.push_back(hostile ? o.kind : -1);
+    if (hostile) cl[ci].malformed_sent = true;
+    kinds.push_back(hostile ? KEEP : o.kind); delays.push_back(o.delay); sent.push_back(false); segs.push_back(o.seg); nds.push_back(o.nd); bigs.push_back(o.big); owner.push_back(ci);
     cl[ci].reqs.push_back(i);
-    std::string t = req_text(i, o.kind);
+    std::string t = hostile ? hcl_text(i, o.kind) : req_text(i, o.kind);
+    if (verbose && hostile) printf("hostile request text: %s\n", t.c_str());
     if (o.seg == GLUED) { cl[ci].out += t; cl[ci].out_reqs.push_back(i); return; }
     if (o.seg == ALONE) { cl[ci].out += t; cl[ci].out_reqs.push_back(i); flush_out(ci); pass(); return; }
     // CUT: everything glued so far + the first half in one segment, a pass, then the second half, a pass
@@ -371,6 +400,7 @@ static std::string show_op(const Op &o) {
   if (o.k == PASS) return "pass";
   if (o.k == RAW) return std::string("raw(") + kRaw[o.kind] + ")";
   if (o.k == RECONN) return "reconn(c" + std::to_string(o.conn) + ")";
+  if (o.k == HCL) return "hcl(v" + std::to_string(o.kind) + "," + kSeg[o.seg] + ")";      // value = kHcl[v], printed by the lane as @INFO and by replay
   char b[96]; int n = snprintf(b, sizeof b, "req(%s,d%d,%s", kKindDef[o.kind].name, o.delay, kSeg[o.seg]);
   if (o.conn) n += snprintf(b + n, sizeof b - n, ",c%d", o.conn);
   if (o.nd) n += snprintf(b + n, sizeof b - n, ",n%d", o.nd);
@@ -386,6 +416,7 @@ static bool parse_hist(const std::string &s, std::vector<Op> &h) {
     if (t == "raw(bad-content-length)") { h.push_back(Op{RAW, BAD_CONTENT_LENGTH, 0, 0, 0, 0, 0}); continue; }
     if (t == "raw(bad-method)") { h.push_back(Op{RAW, BAD_METHOD, 0, 0, 0, 0, 0}); continue; }
     if (t.compare(0, 8, "reconn(c") == 0) { h.push_back(Op{RECONN, 0, 0, 0, atoi(t.c_str() + 8), 0, 0}); continue; }
+    if (t.compare(0, 5, "hcl(v") == 0) { Op o{HCL, atoi(t.c_str() + 5), 0, t.find(",cut") != std::string::npos ? CUT : ALONE, 0, 0, 0}; if (o.kind < 0 || o.kind >= kNHcl) return false; h.push_back(o); continue; }
     if (t.compare(0, 4, "req(") != 0 || t.back() != ')') return false;
     std::vector<std::string> f; { std::string in = t.substr(4, t.size() - 5); size_t q = 0; for (;;) { size_t c = in.find(',', q); f.push_back(in.substr(q, c == std::string::npos ? std::string::npos : c - q)); if (c == std::string::npos) break; q = c + 1; } }
     if (f.size() < 3) return false;
@@ -415,6 +446,7 @@ static std::string run_history(const std::vector<Op> &h, std::string &viol, bool
   World w;
   if (!w.setup()) { viol = "harness-setup-failed errno=" + std::to_string(errno); return "setup-failed"; }
   w.verbose = verbose;
+  if (setjmp(g_bail)) { viol = w.viol; if (verbose) printf("verdict: %s\n", viol.c_str()); std::string *leak = new std::string("watchdog"); return *leak; }      // World is abandoned as it is
   for (auto &o : h) { w.apply(o); if (verbose) printf("after %-22s %s\n", show_op(o).c_str(), w.canon().c_str()); if (!w.viol.empty()) break; }
   std::string c = w.canon();
   if (w.viol.empty()) w.settle_and_judge();
@@ -442,6 +474,7 @@ int main(int argc, char **argv) {
   //        hdr      = Connection header variants (keep-alive on 1.1 and 1.0, multi-token values) next to the closing kinds
   //        big      = responses that need several partial socket writes (server-side SO_SNDBUF minimal), mixed with small ones
   //        multi    = two connections at once + the client closing a connection (work outstanding or not) and reconnecting
+  //        hcl      = a request with a hostile Content-Length value (after 0-2 valid requests, followed by a valid one): loop pass ends, handler not entered twice
   //        mw       = two callbacks: the first defers next() by 0-2 passes, the second (a Middleware object) answers
   std::string lane = argc > 5 ? argv[5] : ""; set_lane(lane);
   hx::Explorer<Op> ex; ex.name = g_transport + "/" + g_engine; if (!lane.empty()) ex.name += "/" + lane;
@@ -452,17 +485,23 @@ int main(int argc, char **argv) {
   // signature = first token of the violation text; a child killed by the escaping std::stoi exception gets a readable name
   ex.sig = [](const std::string &v) {
     if (v.compare(0, 6, "crash:") == 0 && v.find("uncaught-exception") != std::string::npos && v.find("stoi") != std::string::npos) return std::string("server-terminates-on-uncaught-stoi-exception-from-content-length");
+    if (v.compare(0, 14, "crash:signal27") == 0) return std::string("server-busy-hang-cpu-watchdog-15s");
     return v.substr(0, v.find(' ')); };
   const Op PASSOP{PASS, 0, 0, 0, 0, 0, 0};
   ex.menu = [&](const std::vector<Op> &h) {
     std::vector<Op> m; int nreq = 0, nrec = 0; bool glued_open = false, bad = false, used1 = false;
-    for (auto &o : h) { if (o.k == REQ) { nreq++; glued_open = (o.seg == GLUED); if (o.conn == 1) used1 = true; } if (o.k == RAW) { bad = true; glued_open = false; } if (o.k == RECONN) nrec++; }
+    for (auto &o : h) { if (o.k == HCL) { nreq++; glued_open = false; } if (o.k == REQ) { nreq++; glued_open = (o.seg == GLUED); if (o.conn == 1) used1 = true; } if (o.k == RAW) { bad = true; glued_open = false; } if (o.k == RECONN) nrec++; }
     bool more = nreq < maxreq && !bad;
     if (lane == "keeponly") { if (more) for (int seg : {GLUED, ALONE}) for (int d : {0, 1, 2, 3}) m.push_back(mkreq(KEEP, d, seg)); }      // delays 0-3: 4 requests can complete fully reversed
     else if (lane == "hdr") { if (more) for (int seg : {ALONE, GLUED}) for (int kind : {KEEP11H, KEEP10H, KEEP10TE, CLOSE11TE, CLOSE}) for (int d : {0, 1}) m.push_back(mkreq(kind, d, seg)); }
     else if (lane == "big") { if (more) for (int seg : {ALONE, GLUED}) for (int kind : {KEEP, CLOSE}) for (int big : {1, 0}) for (int d : {0, 1}) m.push_back(mkreq(kind, d, seg, 0, 0, big)); }
     else if (lane == "mw") { if (more) { for (int kind : {KEEP, CLOSE}) for (int nd : {0, 1, 2}) for (int d : {0, 1}) m.push_back(mkreq(kind, d, ALONE, 0, nd));
                                          for (int kind : {KEEP, CLOSE}) for (int nd : {0, 2}) m.push_back(mkreq(kind, 0, GLUED, 0, nd)); } }
+    else if (lane == "hcl") {
+      bool hostile_sent = false; for (auto &o : h) if (o.k == HCL) hostile_sent = true;
+      if (!hostile_sent && nreq < maxreq) { for (int d : {0, 1}) m.push_back(mkreq(KEEP, d, ALONE)); for (int seg : {ALONE, CUT}) for (int v = 0; v < kNHcl; v++) m.push_back(Op{HCL, v, 0, seg, 0, 0, 0}); }
+      else if (hostile_sent && nreq < maxreq && h.back().k == HCL) m.push_back(mkreq(KEEP, 0, ALONE));      // bytes that follow the hostile request
+    }
     else if (lane == "multi") {
       // client slot 1 sends only after slot 0 has sent (the two slots are interchangeable until then)
       if (more) for (int conn : {0, 1}) { if (conn == 1 && nreq == 0) continue; for (int kind : {KEEP, CLOSE}) for (int d : {0, 1, 2}) m.push_back(mkreq(kind, d, ALONE, conn)); }
@@ -477,6 +516,7 @@ int main(int argc, char **argv) {
     if (!glued_open) m.push_back(PASSOP);      // a pass while bytes are still held back by the client would only reorder equivalent histories
     return m; };
   ex.run = [&](const std::vector<Op> &h, std::string &viol) { return run_history(h, viol, false); };
+  if (lane == "hcl") { std::string t = "@INFO " + ex.name + " hostile Content-Length values:"; for (int v = 0; v < kNHcl; v++) t += " v" + std::to_string(v) + "='" + kHcl[v] + "'"; printf("%s  (@H = size of the request's own head)\n", t.c_str()); }
   ex.explore(depth);
   return 0;
 }
